@@ -303,7 +303,7 @@ def run_unit(component, seed, count, tag=''):
 def code_props(code):
     table = {1302: ['C13', 'C08'], 1307: ['C13', 'C06'], 1313: ['C13', 'C11'], 1315: ['C13', 'C11'], 1103: ['C11', 'C13'],
              602: ['C06', 'C05'], 603: ['C06', 'C05'], 901: ['C09', 'C15'], 1104: ['C11'], 1105: ['C11'],
-             611: ['C06', 'C09'], 612: ['C06', 'C05'],
+             611: ['C06', 'C09'], 612: ['C06', 'C05'], 631: ['C06', 'C05', 'C13'], 632: ['C06', 'C05'], 633: ['C05', 'C06'],
              811: ['C08', 'C09'], 812: ['C09', 'C10', 'C03'], 813: ['C08', 'C10'], 814: ['C08'], 815: ['C08', 'C09'], 816: ['C09', 'C03', 'C08'],
              821: ['C09'], 822: ['C09', 'C07']}
     if code in table:
@@ -415,7 +415,7 @@ def run_sim(family, seed, count, scenario_file=None, keep_trace=False):
     if not os.path.exists(trace):
         res['error'] = 'simulation produced no trace (exit %d): %s' % (rc, o[-1500:])
         return res
-    rc2, mo, dt2 = run([os.path.join(BIN, 'vmodel'), 'trace', trace], timeout=3300)
+    rc2, mo, dt2 = run(['bash', '-c', 'ulimit -s unlimited 2>/dev/null; exec "$0" "$@"', os.path.join(BIN, 'vmodel'), 'trace', trace], timeout=3300)
     res['model_s'] = round(dt2, 1)
     if rc2 != 0:
         res['error'] = 'validator failed (exit %d): %s' % (rc2, mo[-1500:])
@@ -521,7 +521,7 @@ def run_stress(family, seed, count):
         why = 'panic' if 'panic: ' in o else 'crash'
         tail = ' | '.join(x.strip() for x in o.split('\n') if 'grpctunnel' in x)[:1500]
         open(trace, 'a').write('X %s %s %s\n' % (last, why, tail))
-    rc2, mo, dt2 = run([os.path.join(BIN, 'vmodel'), 'trace', trace], timeout=1800)
+    rc2, mo, dt2 = run(['bash', '-c', 'ulimit -s unlimited 2>/dev/null; exec "$0" "$@"', os.path.join(BIN, 'vmodel'), 'trace', trace], timeout=1800)
     if rc2 != 0:
         res['error'] = 'validator failed (exit %d): %s' % (rc2, mo[-1500:])
         return res
